@@ -2122,10 +2122,13 @@ pub fn gen_plan_opt(c: &Corpus, run_seed: u64, allow_stress: bool) -> (Plan, Pla
         }
     }
     // one run in five makes some calls over small documents with little stack left (64-512 KiB)
+    // a parsed-query slot may stand for another (deeply nested) text once an EditQ has run: then an
+    // evaluation through a slot is not known to be light
+    let any_edit = clients.iter().flatten().any(|o| matches!(o, Op::EditQ { .. }));
     let light = |cl: usize, j: usize| -> bool {
         let (q, d) = match &clients[cl][j] {
             Op::Q { q, d } | Op::P { q, d } | Op::W { q, d } | Op::Ref { q, d } => (*q, *d),
-            Op::E { s, d } => (qslots_ref[*s], *d),
+            Op::E { s, d } if !any_edit => (qslots_ref[*s], *d),
             _ => return false,
         };
         // short and flat: a deeply parenthesised text of 150 bytes recurses 70 levels deep in the parser
@@ -2142,7 +2145,7 @@ pub fn gen_plan_opt(c: &Corpus, run_seed: u64, allow_stress: bool) -> (Plan, Pla
             m <= 6
         };
         let q_ok = if q < n_normal_q { c.queries[query_map[q]].len() <= 160 && flat(&c.queries[query_map[q]]) } else { true };
-        q_ok && slots[d].iter().all(|ci| { let t = &c.contents[content_map[*ci]]; !t.starts_with('#') && t.len() <= 1200 })
+        q_ok && slots[d].iter().all(|ci| { let t = &c.contents[content_map[*ci]]; !t.starts_with('#') && t.len() <= 2500 })
     };
     if let Some(kib) = std::env::var("VERIF_C12_LOWSTACK").ok().and_then(|v| v.parse::<usize>().ok()) {
         // measurement switch: every light operation of every run with this much stack left
